@@ -126,6 +126,11 @@ func VerifC07Outage() {
 	counted := int(d.numDropSlowConn.Count() + d.numDropSlowSpool.Count())
 	verifAssert(missing <= counted, "every-line-received-or-counted")
 	verifAssert(d.numDropNoConnNoSpool.Count() == 0, "spooling-never-counts-conn-down-drops")
+	if verifIsSymbolic() {
+		// the relay loop hands work that waits (replaying the redo buffer into the spool sleeps between lines) to
+		// other goroutines: it never sleeps itself, or every hand-off would wait with it
+		verifAssert(verifSleepsUnder("Destination).relay") == 0, "structural/relay-loop-never-sleeps")
+	}
 	verifCover("end")
 }
 
